@@ -57,9 +57,15 @@ impl Prop for C20 {
     }
     fn strategy(&self, _tier: Tier) -> BoxedStrategy<Case> {
         let d = prop_oneof![4 => Just(1), 4 => Just(-1), 1 => 2..=6i32, 1 => -6..=-2i32];
-        (gen::site(45.0, 2.0), 0u8..9, gen::date(), any::<bool>(), d)
-            .prop_map(|(site, method, date, meridian, d)| Case { site, method, date, meridian, d })
-            .boxed()
+        let site_date = prop_oneof![
+            8 => (gen::site(45.0, 2.0), gen::date()),
+            1 => gen::ra_wrap_site_date(45.0, 2.0, 12.0).prop_map(|(mut s, d)| {
+                // keep room for the step: offsets within [-11, 11]
+                s.gmt = crate::engine::F(s.gmt.0.clamp(-11.0, 11.0));
+                (s, d)
+            }),
+        ];
+        (site_date, 0u8..9, any::<bool>(), d).prop_map(|((site, date), method, meridian, d)| Case { site, method, date, meridian, d }).boxed()
     }
     fn check(&self, c: &Case, st: &mut Stats) -> Result<(), Failure> {
         st.eval();
@@ -76,7 +82,9 @@ impl Prop for C20 {
             s2.lon = F(c.site.lon.0 + 15.0 * d as f64);
         }
         let shifted = compute(&s2, &spec, c.date, None);
-        let tol = 10 * d.abs() as i64;
+        // (VERIF_C20_DIAG_TOL is a diagnostic knob used only to locate the worst cases; never set by the registered commands)
+        let unit_tol: i64 = std::env::var("VERIF_C20_DIAG_TOL").ok().and_then(|s| s.parse().ok()).unwrap_or(10);
+        let tol = unit_tol * d.abs() as i64;
         let mut all_valid = true;
         let mut seam = false;
         for p in gen::PRAYERS {
